@@ -13,7 +13,7 @@ TECHNIQUE = ("bounded-exhaustive enumeration of operator-instance sequences buil
              "x min_pattern_len x top_k, real get_frequent_cuda_kernel_sequences vs recount from the reference tree")
 RULE = ("every sequence of <=L top-level instances drawn (with repetition) from 14 templates over operator names "
         "{aten::A, aten::B} and activities {kern_x, kern_y, memcpy, a long kernel, a zero-duration kernel}; evaluated for operator in {aten::A, aten::B, "
-        "absent name} x min_pattern_len in {0,1,2,3} x top_k in {1,5}; length-2 sequences also with the file order reversed and in a session slice (the same object ran a critical-path analysis | decode_symbol_ids | the other summary getters before); a variant wraps everything in profiler-step "
+        "absent name} x min_pattern_len in {0,1,2,3} x top_k in {1,5}; sequences of length <=2 also without the leading helper operator (the first instance is event 0 of the file); length-2 sequences also with the file order reversed and in a session slice (the same object ran a critical-path analysis | decode_symbol_ids | the other summary getters before); a variant wraps everything in profiler-step "
         "annotations, another analyses it as rank 1 of a two-rank job. non-trivial = at least two patterns, or an instance excluded by depth or by min_pattern_len")
 ASSUMPTIONS = [
     "operator names of the alphabet are not substrings of one another or of activity names, so 'matching' is exact",
@@ -59,6 +59,10 @@ def worlds(tier: str, stats: Dict[str, Any]) -> Iterator[Any]:
         for seq in itertools.product(range(n), repeat=L):
             stats["transitions"] += 1
             yield dict(seq=list(seq), steps=False)
+            if L <= 2:
+                # no leading helper operator: the first instance is the first event of the file (event id 0)
+                stats["transitions"] += 1
+                yield dict(seq=list(seq), steps=False, no_root=True)
             if L == 1:
                 yield dict(seq=list(seq), steps=True)
                 stats["transitions"] += 1
@@ -107,6 +111,8 @@ def build(world) -> List[Dict[str, Any]]:
         emit(TEMPLATES[k])
     if world["steps"]:
         evs.insert(1, kineto.step(5, E0, state["t"] - E0 + 5))
+    if world.get("no_root"):
+        evs = evs[1:]
     if world.get("file_order") == "reversed":
         evs = evs[:1] + evs[1:][::-1]
     return evs
